@@ -147,7 +147,10 @@ def main(tier, seed, replay=None):
             if b["reasons"] == ["reported-although-matched"] and "/j1/" not in b["name"]:
                 # the obligation is violated only by reports the shadowing root cause explains?
                 proj_ = again[pname][0]
-                glob_reports = [r_ for r_ in b["reports"] if any(not s_["inline"] and not runlayer._is_local(s_) and s_["id"] == r_["id"] for s_ in proj_["supprs"])]
+                # the reports that violate the obligation: a global entry for whose id an error finding is planted
+                glob_reports = [r_ for r_ in b["reports"]
+                                if any(not s_["inline"] and not runlayer._is_local(s_) and s_["id"] == r_["id"] for s_ in proj_["supprs"])
+                                and any(l_[2] == r_["id"] and l_[3] == "error" for l_ in proj_["located"])]
                 if glob_reports and all(runlayer.shadowed_global(proj_, r_["id"], r_["file"]) for r_ in glob_reports):
                     cls = runlayer.SHADOW_CLASS
             violations.append({"key": cls or "obs:%s:%s" % ("+".join(b["reasons"]), vlib.digest(again[pname][0]["files"])),
